@@ -788,7 +788,7 @@ func init() {
 	Register(&Rule{
 		ID:    "R-MEMOKEY",
 		Doc:   "static call graph restricted to the type-compiler functions of each package (functions with a map[reflect.Type]/memo parameter): after removing the functions that look the type up in the memo and return the memoised codec, no cycle remains — otherwise a recursive type that reaches the cycle (type T []T, type M map[string]M) recurses until the stack overflows while its codec is built",
-		Props: []string{"C06", "C03", "C04"},
+		Props: []string{"C06", "C03", "C04", "C07"},
 		Min:   map[string]int{"C06": 1, "C03": 1, "C04": 1},
 		Run:   runMemoKey,
 	})
@@ -862,6 +862,50 @@ func runMemoKey(c *core.Ctx) []core.Obligation {
 		if len(nodes) == 0 {
 			b.addP(spec.props, core.Undecided, key, "-", "no type-compiler function with a memo parameter found")
 			continue
+		}
+		// the memo is threaded: a compiler function hands its own memo to the compiler functions
+		// it calls. A fresh map for an inner compilation forgets the types in progress, and a type
+		// that refers to itself through that call (a map value, a synthetic entry struct) is
+		// compiled again and again until the stack is exhausted.
+		{
+			tkey := key + ":threaded"
+			bad, sites := "", 0
+			for _, fn := range nodes {
+				mp := memoParam(fn)
+				for _, ci := range callsIn(fn) {
+					g := staticCallee(ci.Common())
+					if g == nil || !in[g] {
+						continue
+					}
+					gp := memoParam(g)
+					gi := -1
+					for i, p := range g.Params {
+						if p == gp {
+							gi = i
+						}
+					}
+					if gi < 0 || gi >= len(ci.Common().Args) {
+						continue
+					}
+					sites++
+					for _, o := range origins(ci.Common().Args[gi]) {
+						if isNilConst(o) {
+							continue // a leaf type compiled without a memo (json's pointers to Number, Duration, Time, RawMessage)
+						}
+						if o != ssa.Value(mp) {
+							bad = c.InstrPos(ci) + " (" + shortName(fn) + " calls " + g.Name() + ")"
+						}
+					}
+				}
+			}
+			switch {
+			case bad != "":
+				b.addP(append([]string{"C07"}, spec.props...), core.Violation, tkey, bad, "a type-compiler function calls another one with a memo that is not its own (a fresh map): the types being compiled are forgotten for that call, and a type that refers to itself through it — type Node struct{Children map[string]Node} — is compiled without end: fatal stack overflow on first use, for every input")
+			case sites == 0:
+				b.addP(spec.props, core.Undecided, tkey, "-", "no call between type-compiler functions found")
+			default:
+				b.addP(spec.props, core.Discharged, tkey, "-", fmt.Sprintf("%d call(s) between type-compiler functions, each passes the caller's memo", sites))
+			}
 		}
 		succAll := func(fn *ssa.Function) []*ssa.Function {
 			var out []*ssa.Function
